@@ -181,8 +181,8 @@ func (d *c01Deployment) connect(cfg *tls.Config, chunk int, payload []byte) c01R
 	cli := tls.Client(rec, cfg)
 	var res c01Result
 	res.Err = cli.Handshake()
+	res.State = cli.ConnectionState()
 	if res.Err == nil {
-		res.State = cli.ConnectionState()
 		if _, err := cli.Write(append([]byte{byte(len(payload) >> 24), byte(len(payload) >> 16), byte(len(payload) >> 8), byte(len(payload))}, payload...)); err != nil {
 			res.Err = fmt.Errorf("client write: %w", err)
 		} else {
@@ -216,8 +216,8 @@ func (d *c01Deployment) connect(cfg *tls.Config, chunk int, payload []byte) c01R
 
 func TestC01(t *testing.T) {
 	rec := ev.Get("C01")
-	rec.Rule("full deployments with the real crypto/tls stack on both ends: client tls.Config (server name 1..253 bytes, 0..4 ALPN protocols, curve preference lists over {X25519, P-256, P-384, X25519MLKEM768} - hence key_share sizes and real HelloRetryRequests -, cold or warm session cache, optional client certificate with a 0.5..40 KB chain), backend tls.Config without ECH keys (curves, ALPN, client auth, certificate chain 0.5..40 KB, session tickets), client-facing key set of 1..3 keys, the three AEAD suites, fresh or stale client config, client writes chunked 1..4096 bytes or whole. Oracle: the two crypto/tls endpoints - fresh: handshake completes, client ECHAccepted, echo both ways, backend ServerName/ALPN and Conn.ServerName/ALPNProtos equal the client's inner values; stale: hello reaches the public-name server untouched, client gets ECHRejectionError with the server's retry configs and a second connection with them is accepted. distinct = configuration tuple; non-trivial = anything but X25519 / no ALPN / cold / single key")
-	rec.Mandatory("config_id_collision", "hrr", "resumed", "pq_share", "name_ge200", "server_chain_ge16k", "client_chain_ge16k", "aead1", "aead2", "aead3", "stale", "chunked", "client_auth")
+	rec.Rule("full deployments with the real crypto/tls stack on both ends: client tls.Config (server name 1..253 bytes, 0..4 ALPN protocols, curve preference lists over {X25519, P-256, P-384, X25519MLKEM768} - hence key_share sizes and real HelloRetryRequests -, cold or warm session cache, optional client certificate with a 0.5..40 KB chain), backend tls.Config without ECH keys (curves, ALPN, client auth, certificate chain 0.5..40 KB, session tickets), client-facing key set of 1..3 keys, the three AEAD suites, fresh or stale client config, client writes chunked 1..4096 bytes or whole. Oracle: the two crypto/tls endpoints - fresh: handshake completes, client ECHAccepted, echo both ways, backend ServerName/ALPN and Conn.ServerName/ALPNProtos equal the client's inner values; stale: hello reaches the public-name server untouched (that server has drawn curve preferences too, so the rejection handshake may itself go through a HelloRetryRequest), client gets ECHRejectionError with the server's retry configs and a second connection with them is accepted. distinct = configuration tuple; non-trivial = anything but X25519 / no ALPN / cold / single key")
+	rec.Mandatory("config_id_collision", "hrr", "resumed", "pq_share", "name_ge200", "server_chain_ge16k", "client_chain_ge16k", "aead1", "aead2", "aead3", "stale", "stale_hrr", "chunked", "client_auth")
 	rapid.Check(t, func(t *rapid.T) {
 		var cl []string
 		serverName := hello.TwoLabels(hello.GenName(t, "server_name", 253))
@@ -305,10 +305,18 @@ func TestC01(t *testing.T) {
 			tlsKeys = append(tlsKeys, tls.EncryptedClientHelloKey{Config: k.Config, PrivateKey: k.Priv.Bytes(), SendAsRetry: true})
 		}
 		d.PublicCfg = &tls.Config{Certificates: []tls.Certificate{leafFor(t, 0, false, publicName)}, EncryptedClientHelloKeys: tlsKeys, MinVersion: tls.VersionTLS13}
+		if stale {
+			// the public-name server has curve preferences of its own, so that it may
+			// answer the (untouched) outer hello with a HelloRetryRequest
+			d.PublicCfg.CurvePreferences = drawCurves(t, "public_curves")
+		}
 		clientCurves := drawCurves(t, "client_curves")
 		// make sure the two sides share a group
 		if !slices.ContainsFunc(clientCurves, func(c tls.CurveID) bool { return slices.Contains(backend.CurvePreferences, c) }) {
 			clientCurves = append(clientCurves, backend.CurvePreferences[0])
+		}
+		if stale && !slices.ContainsFunc(clientCurves, func(c tls.CurveID) bool { return slices.Contains(d.PublicCfg.CurvePreferences, c) }) {
+			clientCurves = append(clientCurves, d.PublicCfg.CurvePreferences[0])
 		}
 		warm := rapid.IntRange(0, 2).Draw(t, "warm_cache") == 0
 		clientCfg := &tls.Config{
@@ -361,6 +369,9 @@ func TestC01(t *testing.T) {
 					}
 					return l
 				}())
+				if res.State.HelloRetryRequest {
+					cl = append(cl, "stale_hrr")
+				}
 				if !bytes.Equal(rej.RetryConfigList, wantRetry) {
 					ev.Violation(t, "C01", desc, "stale config: retry config list differs from the server's")
 				}
